@@ -69,7 +69,14 @@ Seeds == {
        uniqueItems |-> TRUE, default |-> JArr(<<JInt(1)>>)]),
   Sch([properties |-> << <<"a", Sch([type |-> "object", title |-> "T",
                                      properties |-> << <<"class", Sch([default |-> JBool(FALSE)])>> >>])>> >>,
-       propertyNames |-> Sch([pattern |-> "^a"])])
+       propertyNames |-> Sch([pattern |-> "^a"])]),
+  (* equally titled, structurally different objects at many positions of one schema
+     (class-name de-duplication depends on the order in which positions are parsed) *)
+  Sch([anyOf |-> << Sch([type |-> "object", title |-> "Thing", minProperties |-> 1]) >>,
+       oneOf |-> << Sch([type |-> "object", title |-> "Thing", minProperties |-> 2]) >>,
+       allOf |-> << Sch([type |-> "object", title |-> "Thing"]) >>,
+       properties |-> << <<"a", Sch([type |-> "object", title |-> "Thing", maxProperties |-> 2])>> >>,
+       patternProperties |-> << <<"^a", Sch([type |-> "object", title |-> "Thing", maxProperties |-> 1])>> >>])
 }
 InitSeeds == doc \in Seeds /\ budget = SeedLevels
 SeedSpec == InitSeeds /\ [][Next]_vars
